@@ -16,7 +16,7 @@ CONSTANTS
   ConfSet = {0, 1, 2, 3, 500, 1006, 1007, 1008, 1009, 1010, 1011, 1012}
   Weights = {}
   Budgets = {}
-  MaxRates = {}
+  MaxVbs = {}
   InSets = {}
   Conf0 = 0
   H0 = 0
